@@ -45,10 +45,28 @@ def _block(draw, depth, indent, in_class=False):
     n = draw(st.integers(1, 3 if depth < 3 else 2))
     for _ in range(n):
         kind = draw(st.sampled_from(["assign", "assign", "def", "def", "class", "async", "if", "for", "with", "try",
-                                     "oneline", "return_expr"]))
+                                     "oneline", "return_expr", "selfattr"]))
+        if kind == "selfattr" and (depth >= 3 or in_class):
+            kind = "assign"
         if depth >= 5 and kind in ("def", "class", "async", "if", "for", "with", "try"):
             kind = "assign"
         name = draw(_ID) + str(draw(st.integers(0, 9)))
+        if kind == "selfattr":
+            # attributes of self assigned in a method, in a closure of it and in a method of a class nested in that
+            # closure; all of them are definitions reachable through the instance (goto on inst.attr)
+            cname, m, inner = name.capitalize(), draw(_ID) + "_m", draw(_ID) + "_in"
+            a1, a2, a3 = name + "_a1", name + "_a2", name + "_a3"
+            lines += ["%sclass %s:" % (pad, cname), "%s    def %s(self):" % (pad, m), "%s        self.%s = 1" % (pad, a1),
+                      "%s        def %s():" % (pad, inner), "%s            self.%s = %s" % (pad, a2, draw(_expr(depth)))]
+            if draw(st.booleans()):
+                lines += ["%s            class Undo:" % pad, "%s                def run(this):" % pad,
+                          "%s                    self.%s = 2" % (pad, a3)]
+            else:
+                a3 = a1
+            lines += ["%s        %s()" % (pad, inner), "%s        return self.%s" % (pad, a2),
+                      "%s%s_inst = %s()" % (pad, name, cname),
+                      "%s%s_inst.%s, %s_inst.%s, %s_inst.%s" % (pad, name, a1, name, a2, name, a3)]
+            continue
         if kind == "assign":
             lines.append("%s%s = %s" % (pad, name, draw(_expr(depth))))
         elif kind == "return_expr":
@@ -243,7 +261,24 @@ def run_case(ctx, case):
             devs.append(("get_context-" + shape, where + " expected %s" % (expect_body,)))
         # parent() chains and full_name of definitions
         modname = s.get_context(1, 0).name if text.strip() else None
-        for n in s.get_names(all_scopes=True, definitions=True):
+        # definitions come from get_names and from goto at attribute accesses (definitions reached through a value,
+        # e.g. self.x assigned in a closure of a method, are built on another code path than tree names)
+        defs = [("get_names", n) for n in s.get_names(all_scopes=True, definitions=True)]
+        attr_uses = [toks[i + 1].start for i in range(len(toks) - 1)
+                     if toks[i].string == "." and toks[i].type == tokenize.OP and toks[i + 1].type == tokenize.NAME]
+        seen_goto = set()
+        for apos in attr_uses[case["offset"] % max(1, len(attr_uses) // 30 or 1)::max(1, len(attr_uses) // 30)][:40]:
+            try:
+                res = s.goto(apos[0], apos[1])
+            except Exception:
+                continue          # C01's subject
+            for n in res:
+                if n.module_path is not None and str(n.module_path) == str(path) and n.line is not None \
+                        and (n.line, n.column) not in seen_goto:
+                    seen_goto.add((n.line, n.column))
+                    defs.append(("goto", n))
+                    ctx.extra["goto_definitions_judged"] = ctx.extra.get("goto_definitions_judged", 0) + 1
+        for origin, n in defs:
             pos = (n.line, n.column)
             chain = []
             p = n
@@ -275,9 +310,19 @@ def run_case(ctx, case):
             if [c_ for c_ in chain[:-1] if c_ != ("function", "<lambda>")] != exp:
                 b_ = innermost(pos)[0]
                 shape = "-inside-lambda-in-class-body" if in_any(lam, pos) and b_ and b_["kind"] == "class" else ""
+                if origin == "goto" and n.type == "instance" and exp and exp[0][0] == "class" and not own:
+                    shape += ":class-level-name-reported-as-instance"      # enum members
+                elif origin == "goto":
+                    shape += ":reached-by-goto"
+                    if own or pos in params:
+                        pass
+                    elif innermost(pos)[0] is not None and text.split("\n")[pos[0] - 1][:pos[1]].rstrip().endswith("."):
+                        shape += ":attribute-of-self"
                 devs.append(("parent-chain" + shape, "%r at %s chain=%s expected=%s" % (n.name, pos, chain[:-1], exp)))
             # full_name for module/class level def/class and direct assignment targets
             if in_any(lam, pos) or in_any(comp, pos):
+                continue
+            if origin == "goto":
                 continue
             if all(k == "class" for k, _ in exp) and (own or (pos in ranges and n.type == "statement")) and dotted:
                 want = ".".join([dotted] + [nm for _, nm in reversed(exp)] + [n.name])
